@@ -36,6 +36,12 @@ Section Array.
     st' <- fill_from (if exact then p else N.to_nat (l_rva a)) 0 xs st ;;
     ret (a, st').
 
+  (* a stream made of a header object immediately followed by such an array: the directory entry names both *)
+  Definition w_span_array (exact : bool) (ty : N) (hdr : bytes) (xs : list X) (st : St) : W ((N * loc) * St) :=
+    h <- w_alloc (KStreamHdr ty) hdr ;;
+    r <- w_array exact (KArray ty) xs st ;;
+    ret ((ty, {| l_rva := l_rva h; l_size := (l_size h + l_size (fst r))%N |}), snd r).
+
   Fixpoint w_collect (xs : list X) (st : St) : W (list R * St) :=
     match xs with
     | [] => ret ([], st)
